@@ -235,18 +235,26 @@ class _Inliner:
         if not (name.startswith('_') or self._is_local_closure(name, fn)) or name.startswith('__'):
             return None
         cs = self.P.resolve_call(call, fn, by_name=False)
+        cs = [q for q in cs if not q.startswith('?')]
+        if not cs and recv is not None:
+            # receiver of unknown type: a private method name that exists exactly once in this module
+            same = [f for f in self.P.funcs.values() if f.name == name and f.cls is not None and f.parent is None and f.module.name == fn.module.name]
+            if len(same) == 1:
+                cs = [same[0].qualname]
         if len(cs) != 1 or cs[0] not in self.P.funcs:
             return None
         h = self.P.funcs[cs[0]]
         if h.qualname == fn.qualname or h.module.name != fn.module.name:
             return None
-        # a method must be called on the caller's own self (so attribute reads mean the same object)
-        if h.cls is not None and h.parent is None and not h.is_static:
-            if recv is None or recv.id != (fn.self_name or self._outer_self(fn)):
-                return None
         shape = _helper_ok(h.node, h.decorators)
         if shape is None:
             return None
+        # a statement method must be called on the caller's own self (so attribute reads mean the same object); a
+        # single-expression method may be called on any plain name (`old._merged_with(new)`): self is substituted by it
+        if h.cls is not None and h.parent is None and not h.is_static:
+            own = recv is not None and recv.id == (fn.self_name or self._outer_self(fn))
+            if recv is None or (not own and shape != 'expr'):
+                return None
         if shape == 'stmts' and self._call_sites(h) != 1:
             # a helper shared by several call sites is an abstraction of its own (like the executor's top-up
             # routine); only single-use helpers are "extract method" artefacts
@@ -522,7 +530,8 @@ def propagate_aliases(fn_node: ast.AST) -> int:
             elif isinstance(s, ast.AnnAssign) and isinstance(s.target, ast.Name) and s.value is not None:
                 tgt, val = s.target.id, s.value
             if tgt is None or stores.get(tgt, 0) != 1 or tgt in params or tgt in nested_uses \
-                    or not _pure_alias_value(val, allow_subscript=True) or isinstance(val, (ast.Constant, ast.Name)):
+                    or not _pure_alias_value(val, allow_subscript=True) or isinstance(val, ast.Constant) \
+                    or (isinstance(val, ast.Name) and (stores.get(val.id, 0) > 0 or val.id in comp_names)):
                 i += 1
                 continue
             if isinstance(val, ast.Subscript):
@@ -727,8 +736,12 @@ def fold_dict_builders(fn_node: ast.AST) -> int:
                         and t.value.func.attr == 'update' and isinstance(t.value.func.value, ast.Name) and t.value.func.value.id == d \
                         and len(t.value.args) == 1 and not t.value.keywords and isinstance(t.value.args[0], (ast.Dict, ast.DictComp)) \
                         and not any(isinstance(x, ast.Name) and x.id == d for x in ast.walk(t.value.args[0])):
-                    disp.keys.append(None)
-                    disp.values.append(t.value.args[0])
+                    if isinstance(t.value.args[0], ast.Dict):
+                        disp.keys.extend(t.value.args[0].keys)         # {**a, **{'k': v}} is {**a, 'k': v}
+                        disp.values.extend(t.value.args[0].values)
+                    else:
+                        disp.keys.append(None)
+                        disp.values.append(t.value.args[0])
                 else:
                     break
                 folded += 1
@@ -820,14 +833,22 @@ def canonicalise(sources: dict[str, str]) -> tuple[Program, dict]:
         return pre0, report
     trees0 = {m.path: m.tree for m in pre0.modules.values()}
     from . import canon_decl
+    report['private_mixins_flattened'] = canon_decl.flatten_private_mixins(trees0)
+    report['private_context_managers_desugared'] = canon_decl.desugar_private_context_managers(trees0)
+    report['callable_classes_to_closures'] = canon_decl.callable_classes_to_closures(trees0)
+    report['forwarding_adapters_dropped'] = canon_decl.drop_forwarding_adapters(trees0)
+    report['private_holders_dissolved'] = canon_decl.dissolve_private_holders(trees0)
     report['dataclass_inits_written'] = sum(canon_decl.desugar_dataclasses(t) for t in trees0.values())
     report['namedtuple_uses_flattened'] = canon_decl.desugar_namedtuples(trees0)
     report['new_constants_inlined'] = sum(canon_decl.inline_new_constants(t) for t in trees0.values())
     for tree in trees0.values():
         for n in ast.walk(tree):
             if isinstance(n, (ast.FunctionDef, ast.AsyncFunctionDef)):
+                report['isinstance_reraise_split'] = report.get('isinstance_reraise_split', 0) + split_isinstance_reraise(n)
+                report['suppress_desugared'] = report.get('suppress_desugared', 0) + desugar_suppress(n)
                 report['pops_split'] += split_pops(n)
                 report['partials_to_closures'] += partials_to_closures(n)
+                report['partials_to_closures'] += hoist_inline_partials(n)
     pre = Program(sources, trees=trees0)
     inl = _Inliner(pre)
     inl.run()
@@ -839,6 +860,7 @@ def canonicalise(sources: dict[str, str]) -> tuple[Program, dict]:
                 report['joined_tails_sunk'] = report.get('joined_tails_sunk', 0) + sink_joined_tails(n)
                 report['hash_updates_folded'] = report.get('hash_updates_folded', 0) + fold_hash_updates(n)
                 report['counter_updates_folded'] = report.get('counter_updates_folded', 0) + fold_counter_updates(n)
+                report['setdefault_forms_folded'] = report.get('setdefault_forms_folded', 0) + fold_setdefault_forms(n)
                 for _ in range(3):
                     a = fold_accumulator_loops(n)
                     b = fold_dict_builders(n)
@@ -1008,6 +1030,139 @@ def fold_counter_updates(fn_node: ast.AST) -> int:
                     blk[i] = new
                     n += 1
                     break
+    if n:
+        ast.fix_missing_locations(fn_node)
+    return n
+
+
+# ----------------------------------------------------------------------------------------
+# P8: `except T as e:  if isinstance(e, K): raise ; REST`   ->   `except K: raise`  +  `except T as e: REST`
+# P9: `with contextlib.suppress(E): BODY`                    ->   `try: BODY  except E: pass`
+
+def split_isinstance_reraise(fn_node: ast.AST) -> int:
+    n = 0
+    for t in [x for x in walk_local(fn_node) if isinstance(x, ast.Try)]:
+        new_handlers = []
+        for h in t.handlers:
+            first = h.body[0] if h.body else None
+            ok = (h.name and isinstance(first, ast.If) and not first.orelse and len(first.body) == 1 and isinstance(first.body[0], ast.Raise)
+                  and (first.body[0].exc is None or (isinstance(first.body[0].exc, ast.Name) and first.body[0].exc.id == h.name and first.body[0].cause is None))
+                  and isinstance(first.test, ast.Call) and dotted(first.test.func) == 'isinstance' and len(first.test.args) == 2
+                  and isinstance(first.test.args[0], ast.Name) and first.test.args[0].id == h.name and len(h.body) > 1)
+            if ok:
+                k = ast.ExceptHandler(type=copy.deepcopy(first.test.args[1]), name=None, body=[ast.Raise(exc=None, cause=None)])
+                ast.copy_location(k, first)
+                ast.copy_location(k.body[0], first.body[0])
+                new_handlers.append(k)
+                h.body = h.body[1:]
+                n += 1
+            new_handlers.append(h)
+        t.handlers = new_handlers
+    if n:
+        ast.fix_missing_locations(fn_node)
+    return n
+
+
+def desugar_suppress(fn_node: ast.AST) -> int:
+    n = 0
+    for _owner, _fld, blk in _blocks(fn_node):
+        for i, st in enumerate(blk):
+            if isinstance(st, ast.With) and len(st.items) == 1 and st.items[0].optional_vars is None:
+                ce = st.items[0].context_expr
+                if isinstance(ce, ast.Call) and (dotted(ce.func) or '').split('.')[-1] == 'suppress' and ce.args and not ce.keywords:
+                    typ = ce.args[0] if len(ce.args) == 1 else ast.Tuple(elts=list(ce.args), ctx=ast.Load())
+                    h = ast.ExceptHandler(type=typ, name=None, body=[ast.Pass()])
+                    new = ast.Try(body=st.body, handlers=[h], orelse=[], finalbody=[])
+                    ast.copy_location(new, st)
+                    ast.copy_location(h, st)
+                    ast.copy_location(h.body[0], st)
+                    blk[i] = new
+                    n += 1
+    if n:
+        ast.fix_missing_locations(fn_node)
+    return n
+
+
+# ----------------------------------------------------------------------------------------
+# P10: `f(..., functools.partial(F, a, b), ...)` as a thread target / callback  ->  `def _partial_N(): return F(a, b)` before
+#      the statement, and the name in its place (the inliner then fills in a new private F)
+
+def hoist_inline_partials(fn_node: ast.AST) -> int:
+    count = 0
+    for owner, fld, block in list(_blocks(fn_node)):
+        i = 0
+        while i < len(block):
+            s = block[i]
+            if isinstance(s, (ast.FunctionDef, ast.AsyncFunctionDef, ast.ClassDef)) or not isinstance(s, (ast.Expr, ast.Assign, ast.AnnAssign, ast.Return)):
+                i += 1
+                continue
+            target = None
+            for c in ast.walk(s):
+                if isinstance(c, ast.Call) and dotted(c.func) in ('functools.partial', 'partial') and c.args \
+                        and not (isinstance(s, ast.Assign) and s.value is c):
+                    # only as a keyword value `target=` / `callback=` or a plain argument of an enclosing call
+                    target = c
+                    break
+            if target is None or any(isinstance(a, ast.Starred) for a in target.args) or any(k.arg is None for k in target.keywords):
+                i += 1
+                continue
+            name = f'_partial_{getattr(s, "lineno", 0)}_{count}'
+            call = ast.Call(func=target.args[0], args=list(target.args[1:]), keywords=list(target.keywords))
+            fdef = ast.FunctionDef(name=name, args=ast.arguments(posonlyargs=[], args=[], vararg=None, kwonlyargs=[], kw_defaults=[], kwarg=None, defaults=[]),
+                                   body=[ast.Return(value=call)], decorator_list=[], returns=None, type_comment=None, type_params=[])
+            ast.copy_location(fdef, s)
+
+            class R(ast.NodeTransformer):
+                def visit_Call(self, node):
+                    if node is target:
+                        return ast.copy_location(ast.Name(id=name, ctx=ast.Load()), node)
+                    self.generic_visit(node)
+                    return node
+            block[i] = R().visit(s)
+            block.insert(i, fdef)
+            ast.fix_missing_locations(fdef)
+            count += 1
+            i += 2
+    return count
+
+
+# ----------------------------------------------------------------------------------------
+# P11: defaultdict spelled out:  `d.setdefault(k, <empty>).append(v)` -> `d[k].append(v)`;   `for x in d.get(k, <empty>)` -> `for x in d[k]`
+
+def _empty_ctor(e: ast.AST) -> bool:
+    if isinstance(e, (ast.List, ast.Set, ast.Tuple)) and not e.elts:
+        return True
+    if isinstance(e, ast.Dict) and not e.keys:
+        return True
+    return isinstance(e, ast.Call) and not e.args and not e.keywords and (dotted(e.func) or '').split('.')[-1] in ('list', 'set', 'dict', 'OrderedSet', 'deque', 'tuple', 'frozenset')
+
+
+def fold_setdefault_forms(fn_node: ast.AST) -> int:
+    n = 0
+
+    class T(ast.NodeTransformer):
+        def visit_Call(self, node: ast.Call):
+            nonlocal n
+            self.generic_visit(node)
+            f = node.func
+            if isinstance(f, ast.Attribute) and isinstance(f.value, ast.Call) and isinstance(f.value.func, ast.Attribute) \
+                    and f.value.func.attr == 'setdefault' and len(f.value.args) == 2 and _empty_ctor(f.value.args[1]) \
+                    and f.attr in ('append', 'add', 'extend', 'update', 'appendleft'):
+                n += 1
+                node.func = ast.copy_location(ast.Attribute(value=ast.Subscript(value=f.value.func.value, slice=f.value.args[0], ctx=ast.Load()),
+                                                            attr=f.attr, ctx=ast.Load()), f)
+            return node
+
+        def visit_For(self, node: ast.For):
+            nonlocal n
+            self.generic_visit(node)
+            it = node.iter
+            if isinstance(it, ast.Call) and isinstance(it.func, ast.Attribute) and it.func.attr == 'get' and len(it.args) == 2 and _empty_ctor(it.args[1]) \
+                    and not it.keywords:
+                n += 1
+                node.iter = ast.copy_location(ast.Subscript(value=it.func.value, slice=it.args[0], ctx=ast.Load()), it)
+            return node
+    T().visit(fn_node)
     if n:
         ast.fix_missing_locations(fn_node)
     return n
